@@ -1037,7 +1037,11 @@ impl World {
         if avail < 2 || !inputs.iter().any(|(_, c)| c.coin_data.denom == Denom::Mel) {
             return None;
         }
-        let v = self.amount((avail / 2).min(MAX_COINVAL));
+        let mut v = self.amount((avail / 2).min(MAX_COINVAL));
+        if self.rng.chance(1, 12) {
+            // a stake of nothing: consistent (0 SYM declared, 0 SYM in the first output), no voting power
+            v = 0;
+        }
         let epoch = self.height() / STAKE_EPOCH;
         let (e_start, e_post_end, label) = match self.rng.below(6) {
             0 => (epoch, epoch + 2, "start=current"),
@@ -1054,7 +1058,7 @@ impl World {
         let covhash = self.owners[o].addr_new;
         let payload = vec![CoinData { covhash, value: CoinValue(v), denom: Denom::Sym, additional_data: Bytes::new() }];
         let tx = self.complete(TxKind::Stake, inputs, payload, doc.stdcode(), 0)?;
-        Some((tx, format!("stake {} amount_match={}", label, staked == v)))
+        Some((tx, format!("stake {} amount_match={}{}", label, staked == v, if v == 0 { " zero-SYM" } else { "" })))
     }
 
     /// A valid ERG mint: a real MelPoW proof (small difficulty) over a coin created in an earlier
